@@ -412,30 +412,37 @@ def encReading (r : PyEmit.PR PyEmit.PyExpr) (want : Option PyEmit.PyExpr) : Str
 /-- names no identifier can have, for the operands of an event -/
 def tmpName (i : Nat) : Text := [0, i]
 
-/-- the outcome of the operation of an event, computed by the evaluator itself on the operand values -/
+def opKind : Op → String
+  | .load _ _ => "load" | .loadFn _ => "loadfn" | .getattr _ _ => "getattr" | .getmeth _ _ => "getmeth"
+  | .index _ _ => "index" | .cmp _ _ _ => "cmp" | .isIn _ _ => "isin" | .arith _ _ _ => "arith"
+  | .call _ _ => "call" | .callMethod _ _ _ => "callmethod" | .iter _ => "iter" | .range _ _ => "range" | .fmt _ => "fmt"
+
+/-- an event on the wire: the exception it records (`Ev.raised`), else the result of the operation, computed by the
+evaluator itself on the operand values -/
 def evOut (ρ : Env) (ev : Ev) : String :=
-  match ev.op with
-  | .load _ o => "load|" ++ encOut o
-  | .loadFn f => "loadfn|" ++ (if calleeResolves ρ f then "ok" else "otherError")
-  | .getattr v n => "getattr|" ++ encOut (eval (ρ.bind (tmpName 0) v) (.member (.name (tmpName 0)) n))
-  | .index c i =>
-    "index|" ++ encOut (eval ((ρ.bind (tmpName 0) c).bind (tmpName 1) i) (.index (.name (tmpName 0)) (.name (tmpName 1))))
-  | .cmp op l r =>
-    "cmp|" ++ encOut (eval ((ρ.bind (tmpName 0) l).bind (tmpName 1) r) (.cmp (.name (tmpName 0)) op (.name (tmpName 1))))
-  | .isIn m c =>
-    "isin|" ++ encOut (eval ((ρ.bind (tmpName 0) m).bind (tmpName 1) c) (.isIn (.name (tmpName 0)) (.name (tmpName 1))))
-  | .arith add l r =>
-    let ρ' := (ρ.bind (tmpName 0) l).bind (tmpName 1) r
-    "arith|" ++ encOut (eval ρ' (if add then .add (.name (tmpName 0)) (.name (tmpName 1)) else .sub (.name (tmpName 0)) (.name (tmpName 1))))
-  | .call f args =>
-    let names := (List.range args.length).map tmpName
-    let ρ' : Env := { ρ with vars := (names.zip args).reverse ++ ρ.vars }
-    "call|" ++ encOut (eval ρ' (.funCall f (names.map .name)))
-  | .getmeth _ _ => "getmeth|" ++ (match ev.raised with | none => "ok" | some o => encOut o)
-  | .callMethod _ _ _ => "callmethod|-"
-  | .iter v => "iter|" ++ (match iterItems v with | some _ => "ok" | none => "typeError")
-  | .range a b => "range|" ++ (match rangeArg a, rangeArg b with | some _, some _ => "ok" | _, _ => "typeError")
-  | .fmt v => "fmt|" ++ encOut (fmtVal ρ v)
+  match ev.raised with
+  | some o => opKind ev.op ++ "|" ++ encOut o
+  | none =>
+    opKind ev.op ++ "|" ++
+    (match ev.op with
+    | .load _ o => encOut o
+    | .loadFn _ => "ok"
+    | .getattr v n => encOut (eval (ρ.bind (tmpName 0) v) (.member (.name (tmpName 0)) n))
+    | .getmeth _ _ => "ok"
+    | .index c i => encOut (eval ((ρ.bind (tmpName 0) c).bind (tmpName 1) i) (.index (.name (tmpName 0)) (.name (tmpName 1))))
+    | .cmp op l r => encOut (eval ((ρ.bind (tmpName 0) l).bind (tmpName 1) r) (.cmp (.name (tmpName 0)) op (.name (tmpName 1))))
+    | .isIn m c => encOut (eval ((ρ.bind (tmpName 0) m).bind (tmpName 1) c) (.isIn (.name (tmpName 0)) (.name (tmpName 1))))
+    | .arith add l r =>
+      let ρ' := (ρ.bind (tmpName 0) l).bind (tmpName 1) r
+      encOut (eval ρ' (if add then .add (.name (tmpName 0)) (.name (tmpName 1)) else .sub (.name (tmpName 0)) (.name (tmpName 1))))
+    | .call f args =>
+      let names := (List.range args.length).map tmpName
+      let ρ' : Env := { ρ with vars := (names.zip args).reverse ++ ρ.vars }
+      encOut (eval ρ' (.funCall f (names.map .name)))
+    | .callMethod _ _ _ => "-"
+    | .iter _ => "ok"
+    | .range _ _ => "ok"
+    | .fmt v => encOut (fmtVal ρ v))
 
 def encTrace (ρ : Env) (evs : List Ev) : String :=
   if evs.isEmpty then "-" else " ".intercalate (evs.map (evOut ρ))
